@@ -210,8 +210,17 @@ fn step<B: Block>(b: &mut B, target: &str, seed: u64, params: &str, before: (usi
         Ok(v) => {
             let a = after();
             if v.starts_with("UntruthfulWait") && a == before {
-                return Err(Fail { target: target.into(), prop: "C09", label: format!("C09.{target}.wait-names-the-blocking-stream"),
-                    what: format!("work() made no progress and answered {v}: the stream it names already offers that much (the wait returns at once)"), seed, params: params.into() });
+                // harmless if the following call gets somewhere; asked again with nothing changed, the same already satisfied
+                // wait without progress means the block spins (C09)
+                let again = std::panic::catch_unwind(std::panic::AssertUnwindSafe(|| match b.work() {
+                    Ok(BlockRet::WaitForStream(w, n)) => !wait_is_truthful(w, n),
+                    _ => false,
+                })).unwrap_or(false);
+                if again && after() == before {
+                    return Err(Fail { target: target.into(), prop: "C09", label: format!("C09.{target}.wait-names-the-blocking-stream"),
+                        what: format!("two calls in a row made no progress and answered {v}: the stream it names already offers that much (the wait returns at once), the block spins"), seed, params: params.into() });
+                }
+                return Ok("Wait(probed)".to_string());
             }
             if v == "Again" && a == before && !state_changed {
                 return Err(Fail { target: target.into(), prop: "C09", label: format!("C09.{target}.again-means-progress"),
@@ -509,8 +518,10 @@ fn run_v2s(seed: u64) -> Result<u64, Fail> {
                 Ok(BlockRet::WaitForStream(w, n)) => {
                     // a wait for an amount the output already has free (or a packet the queue already holds) is untruthful;
                     // timing probe as in step(), where it can matter, twice per (amount, situation)
+                    // (the wait may name the output -- untruthful if that much is free -- or the packet queue -- untruthful
+                    // if a packet is waiting; either way the probe decides)
                     let room = CAP.saturating_sub(before.1);
-                    let due = room >= n && {
+                    let due = {
                         let mut m = WAIT_SEEN.lock().unwrap();
                         let c = m.entry(format!("v2s/{n}/{}", room >= n)).or_insert(0);
                         *c += 1;
@@ -525,9 +536,15 @@ fn run_v2s(seed: u64) -> Result<u64, Fail> {
             if r.is_err() {
                 return Err(Fail { target: target.into(), prop: "C15", label: "C15.v2s.work-does-not-panic".into(), what: "work() panicked".into(), seed, params });
             }
-            if matches!(r, Ok("UntruthfulWait")) && readable(&out) == before.1 {
+            if matches!(r, Ok("UntruthfulWait")) && readable(&out) == before.1
+                && std::panic::catch_unwind(std::panic::AssertUnwindSafe(|| match b.work() {
+                    Ok(BlockRet::WaitForStream(w, n)) => !wait_is_truthful(w, n),
+                    _ => false,
+                })).unwrap_or(false)
+                && readable(&out) == before.1
+            {
                 return Err(Fail { target: target.into(), prop: "C09", label: "C09.v2s.wait-names-the-blocking-stream".into(),
-                    what: format!("work() made no progress and reported a wait that the stream it names already satisfies ({} samples free in the output)", CAP - before.1), seed, params });
+                    what: format!("two calls in a row made no progress and reported a wait that the stream they name already satisfies ({} samples free in the output): the block spins", CAP - before.1), seed, params });
             }
             let _ = (before, after());
             // C09: a runner asks eof() after a wait verdict and retires the block when it says yes; it must not say yes
